@@ -10,5 +10,7 @@ CONSTANTS
   Targets = {"v1", "v2", "v3"}
   WriteBack = TRUE
   RemovePart = TRUE
+  LockedMerge = TRUE
+  WithPar = FALSE
   MaxOps = 12
   WithFaults = TRUE
